@@ -67,7 +67,7 @@ func realDiff(dir, old string, prec int, threads int) (map[string][]gdiff.LineCh
 	if p < 1 || p > 3 {
 		p = 2
 	}
-	cfg := &config.Config{OldBranch: old, NewBranch: "HEAD", DiffPrecision: p, Threads: threads, AppName: "a", AppVersion: "v"}
+	cfg := &config.Config{OldBranch: old, NewBranch: "HEAD", DiffPrecision: p, Threads: threads, AppName: "a", AppVersion: "v", SkipNestedModules: true}
 	if err := cfg.Validate(); err != nil {
 		return nil, nil, err
 	}
@@ -1014,7 +1014,7 @@ func (g *textGen) mutate(t map[string]string, own func(string) bool, region int,
 	// a file below an excluded directory and an eligible sibling whose name merely starts with that
 	// directory's name change in the same commit (the sibling must still be reported)
 	if g.r.Intn(4) == 0 {
-		for _, pair := range [][2]string{{"pkg/b/testdata/t.go", "pkg/b/testdata_loader.go"}, {"vendor/v/v.go", "vendorutil/u.go"}} {
+		for _, pair := range [][2]string{{"pkg/b/testdata/t.go", "pkg/b/testdata_loader.go"}, {"vendor/v/v.go", "vendorutil/u.go"}, {"plugin/p.go", "pluginapi/api.go"}} {
 			c0, ok0 := t[pair[0]]
 			c1, ok1 := t[pair[1]]
 			if ok0 && ok1 && own(pair[0]) && own(pair[1]) {
@@ -1095,6 +1095,10 @@ func buildHistory(dir string, r *rand.Rand, count func(string)) *histRepo {
 	tree["pkg/b/testdata/t.go"] = g.file(5)
 	tree["pkg/b/testdata_loader.go"] = g.file(7)
 	tree["vendorutil/u.go"] = g.file(6)
+	// a nested module (skipped) and an eligible sibling whose directory name starts with the module's
+	tree["plugin/go.mod"] = "module example.com/plugin\n"
+	tree["plugin/p.go"] = g.file(6)
+	tree["pluginapi/api.go"] = g.file(8)
 	// a generated asset: one source line longer than 64 KiB above lines that get edited
 	tree["pkg/a/asset.go"] = "var asset = \"" + strings.Repeat("0123456789abcdef", 4400) + "\"\n" + g.file(9)
 	all := func(string) bool { return true }
